@@ -41,6 +41,10 @@ class User:
     def __hash__(self): return hash(("U", self.tag))
     def __repr__(self): return "User(%r)" % self.tag
 
+class _Nil:
+    def __repr__(self): return 'NIL'
+NIL = _Nil()
+
 def f64(hexs): return struct.unpack(">d", bytes.fromhex(hexs.rjust(16, "0")))[0]
 def f32(hexs): return struct.unpack(">f", bytes.fromhex(hexs.rjust(8, "0")))[0]
 
@@ -60,6 +64,7 @@ class P:
     def value(self):
         t = self.next()
         if t == "N": return None
+        if t == "NIL": return NIL
         if t == "T": return True
         if t == "F": return False
         for pfx in ("i:", "i8:", "i16:", "i32:", "i0:", "u:", "u8:", "u16:", "u32:", "u0:", "L:"):
